@@ -128,6 +128,10 @@ partial def runMeshO (h : Nat → UInt64) (tri : Nat → Tri) (m o : Mesh.Mesh) 
       let f ← f.toNat?
       let (m', r) := m.neighbors h tri f
       runMeshO h tri m' o rest (showSet r :: acc)
+  | "nbr2" :: f :: rest, acc => do
+      let f ← f.toNat?
+      let (m', r) := m.neighbors2 h tri f
+      runMeshO h tri m' o rest (showSet r :: acc)
   | "verts" :: rest, acc =>
       let (m', r) := m.vertexSlice h tri
       runMeshO h tri m' o rest (showSet r :: acc)
